@@ -11,191 +11,285 @@ open QmiModel.RpcClass
 theorem protected_list_matches : genProtected = protectedNames := by decide +kernel
 
 theorem wf__ContextRpcObject : WellFormed gen__ContextRpcObject := wf_of_syn gen__ContextRpcObject (by decide +kernel)
+theorem full__ContextRpcObject : gateProxyOkB gen__ContextRpcObject = true ∧ assigned__ContextRpcObject.all (fun n => !isAdvertised gen__ContextRpcObject n) = true := by decide +kernel
 
 theorem wf_QMI_Instrument : WellFormed gen_QMI_Instrument := wf_of_syn gen_QMI_Instrument (by decide +kernel)
+theorem full_QMI_Instrument : gateProxyOkB gen_QMI_Instrument = true ∧ assigned_QMI_Instrument.all (fun n => !isAdvertised gen_QMI_Instrument n) = true := by decide +kernel
 
 theorem wf_QMI_RpcObject : WellFormed gen_QMI_RpcObject := wf_of_syn gen_QMI_RpcObject (by decide +kernel)
+theorem full_QMI_RpcObject : gateProxyOkB gen_QMI_RpcObject = true ∧ assigned_QMI_RpcObject.all (fun n => !isAdvertised gen_QMI_RpcObject n) = true := by decide +kernel
 
 theorem wf_QMI_TaskRunner : WellFormed gen_QMI_TaskRunner := wf_of_syn gen_QMI_TaskRunner (by decide +kernel)
+theorem full_QMI_TaskRunner : gateProxyOkB gen_QMI_TaskRunner = true ∧ assigned_QMI_TaskRunner.all (fun n => !isAdvertised gen_QMI_TaskRunner n) = true := by decide +kernel
 
 theorem wf_Adwin_Base : WellFormed gen_Adwin_Base := wf_of_syn gen_Adwin_Base (by decide +kernel)
+theorem full_Adwin_Base : gateProxyOkB gen_Adwin_Base = true ∧ assigned_Adwin_Base.all (fun n => !isAdvertised gen_Adwin_Base n) = true := by decide +kernel
 
 theorem wf_Adwin_GoldII : WellFormed gen_Adwin_GoldII := wf_of_syn gen_Adwin_GoldII (by decide +kernel)
+theorem full_Adwin_GoldII : gateProxyOkB gen_Adwin_GoldII = true ∧ assigned_Adwin_GoldII.all (fun n => !isAdvertised gen_Adwin_GoldII n) = true := by decide +kernel
 
 theorem wf_Adwin_ProII : WellFormed gen_Adwin_ProII := wf_of_syn gen_Adwin_ProII (by decide +kernel)
+theorem full_Adwin_ProII : gateProxyOkB gen_Adwin_ProII = true ∧ assigned_Adwin_ProII.all (fun n => !isAdvertised gen_Adwin_ProII n) = true := by decide +kernel
 
 theorem wf_Agiltron_FF1x4 : WellFormed gen_Agiltron_FF1x4 := wf_of_syn gen_Agiltron_FF1x4 (by decide +kernel)
+theorem full_Agiltron_FF1x4 : gateProxyOkB gen_Agiltron_FF1x4 = true ∧ assigned_Agiltron_FF1x4.all (fun n => !isAdvertised gen_Agiltron_FF1x4 n) = true := by decide +kernel
 
 theorem wf_Anapico_APSIN : WellFormed gen_Anapico_APSIN := wf_of_syn gen_Anapico_APSIN (by decide +kernel)
+theorem full_Anapico_APSIN : gateProxyOkB gen_Anapico_APSIN = true ∧ assigned_Anapico_APSIN.all (fun n => !isAdvertised gen_Anapico_APSIN n) = true := by decide +kernel
 
 theorem wf_IPPower9850 : WellFormed gen_IPPower9850 := wf_of_syn gen_IPPower9850 (by decide +kernel)
+theorem full_IPPower9850 : gateProxyOkB gen_IPPower9850 = true ∧ assigned_IPPower9850.all (fun n => !isAdvertised gen_IPPower9850 n) = true := by decide +kernel
 
 theorem wf_BostonMicromachines_MultiDM : WellFormed gen_BostonMicromachines_MultiDM := wf_of_syn gen_BostonMicromachines_MultiDM (by decide +kernel)
+theorem full_BostonMicromachines_MultiDM : gateProxyOkB gen_BostonMicromachines_MultiDM = true ∧ assigned_BostonMicromachines_MultiDM.all (fun n => !isAdvertised gen_BostonMicromachines_MultiDM n) = true := by decide +kernel
 
 theorem wf_Bristol_871A : WellFormed gen_Bristol_871A := wf_of_syn gen_Bristol_871A (by decide +kernel)
+theorem full_Bristol_871A : gateProxyOkB gen_Bristol_871A = true ∧ assigned_Bristol_871A.all (fun n => !isAdvertised gen_Bristol_871A n) = true := by decide +kernel
 
 theorem wf_Bristol_Fos : WellFormed gen_Bristol_Fos := wf_of_syn gen_Bristol_Fos (by decide +kernel)
+theorem full_Bristol_Fos : gateProxyOkB gen_Bristol_Fos = true ∧ assigned_Bristol_Fos.all (fun n => !isAdvertised gen_Bristol_Fos n) = true := by decide +kernel
 
 theorem wf_Cobolt_Laser_06_01 : WellFormed gen_Cobolt_Laser_06_01 := wf_of_syn gen_Cobolt_Laser_06_01 (by decide +kernel)
+theorem full_Cobolt_Laser_06_01 : gateProxyOkB gen_Cobolt_Laser_06_01 = true ∧ assigned_Cobolt_Laser_06_01.all (fun n => !isAdvertised gen_Cobolt_Laser_06_01 n) = true := by decide +kernel
 
 theorem wf_AnalogDiscovery2 : WellFormed gen_AnalogDiscovery2 := wf_of_syn gen_AnalogDiscovery2 (by decide +kernel)
+theorem full_AnalogDiscovery2 : gateProxyOkB gen_AnalogDiscovery2 = true ∧ assigned_AnalogDiscovery2.all (fun n => !isAdvertised gen_AnalogDiscovery2 n) = true := by decide +kernel
 
 theorem wf_NoisySineGenerator : WellFormed gen_NoisySineGenerator := wf_of_syn gen_NoisySineGenerator (by decide +kernel)
+theorem full_NoisySineGenerator : gateProxyOkB gen_NoisySineGenerator = true ∧ assigned_NoisySineGenerator.all (fun n => !isAdvertised gen_NoisySineGenerator n) = true := by decide +kernel
 
 theorem wf_Edwards_TurboInstrumentController : WellFormed gen_Edwards_TurboInstrumentController := wf_of_syn gen_Edwards_TurboInstrumentController (by decide +kernel)
+theorem full_Edwards_TurboInstrumentController : gateProxyOkB gen_Edwards_TurboInstrumentController = true ∧ assigned_Edwards_TurboInstrumentController.all (fun n => !isAdvertised gen_Edwards_TurboInstrumentController n) = true := by decide +kernel
 
 theorem wf_HighFinesse_Wlm : WellFormed gen_HighFinesse_Wlm := wf_of_syn gen_HighFinesse_Wlm (by decide +kernel)
+theorem full_HighFinesse_Wlm : gateProxyOkB gen_HighFinesse_Wlm = true ∧ assigned_HighFinesse_Wlm.all (fun n => !isAdvertised gen_HighFinesse_Wlm n) = true := by decide +kernel
 
 theorem wf_ImagineEyes_Mirao52e : WellFormed gen_ImagineEyes_Mirao52e := wf_of_syn gen_ImagineEyes_Mirao52e (by decide +kernel)
+theorem full_ImagineEyes_Mirao52e : gateProxyOkB gen_ImagineEyes_Mirao52e = true ∧ assigned_ImagineEyes_Mirao52e.all (fun n => !isAdvertised gen_ImagineEyes_Mirao52e n) = true := by decide +kernel
 
 theorem wf_InstruTech_AGC302 : WellFormed gen_InstruTech_AGC302 := wf_of_syn gen_InstruTech_AGC302 (by decide +kernel)
+theorem full_InstruTech_AGC302 : gateProxyOkB gen_InstruTech_AGC302 = true ∧ assigned_InstruTech_AGC302.all (fun n => !isAdvertised gen_InstruTech_AGC302 n) = true := by decide +kernel
 
 theorem wf_JPE_CPSC : WellFormed gen_JPE_CPSC := wf_of_syn gen_JPE_CPSC (by decide +kernel)
+theorem full_JPE_CPSC : gateProxyOkB gen_JPE_CPSC = true ∧ assigned_JPE_CPSC.all (fun n => !isAdvertised gen_JPE_CPSC n) = true := by decide +kernel
 
 theorem wf_MCC_USB1808X : WellFormed gen_MCC_USB1808X := wf_of_syn gen_MCC_USB1808X (by decide +kernel)
+theorem full_MCC_USB1808X : gateProxyOkB gen_MCC_USB1808X = true ∧ assigned_MCC_USB1808X.all (fun n => !isAdvertised gen_MCC_USB1808X n) = true := by decide +kernel
 
 theorem wf_Montana_Cryostation : WellFormed gen_Montana_Cryostation := wf_of_syn gen_Montana_Cryostation (by decide +kernel)
+theorem full_Montana_Cryostation : gateProxyOkB gen_Montana_Cryostation = true ∧ assigned_Montana_Cryostation.all (fun n => !isAdvertised gen_Montana_Cryostation n) = true := by decide +kernel
 
 theorem wf_Montana_CryostationS50 : WellFormed gen_Montana_CryostationS50 := wf_of_syn gen_Montana_CryostationS50 (by decide +kernel)
+theorem full_Montana_CryostationS50 : gateProxyOkB gen_Montana_CryostationS50 = true ∧ assigned_Montana_CryostationS50.all (fun n => !isAdvertised gen_Montana_CryostationS50 n) = true := by decide +kernel
 
 theorem wf_Newport_AG_UC8 : WellFormed gen_Newport_AG_UC8 := wf_of_syn gen_Newport_AG_UC8 (by decide +kernel)
+theorem full_Newport_AG_UC8 : gateProxyOkB gen_Newport_AG_UC8 = true ∧ assigned_Newport_AG_UC8.all (fun n => !isAdvertised gen_Newport_AG_UC8 n) = true := by decide +kernel
 
 theorem wf_Newport_ConexCC : WellFormed gen_Newport_ConexCC := wf_of_syn gen_Newport_ConexCC (by decide +kernel)
+theorem full_Newport_ConexCC : gateProxyOkB gen_Newport_ConexCC = true ∧ assigned_Newport_ConexCC.all (fun n => !isAdvertised gen_Newport_ConexCC n) = true := by decide +kernel
 
 theorem wf_Newport_843R : WellFormed gen_Newport_843R := wf_of_syn gen_Newport_843R (by decide +kernel)
+theorem full_Newport_843R : gateProxyOkB gen_Newport_843R = true ∧ assigned_Newport_843R.all (fun n => !isAdvertised gen_Newport_843R n) = true := by decide +kernel
 
 theorem wf_Newport_SingleAxisMotionController : WellFormed gen_Newport_SingleAxisMotionController := wf_of_syn gen_Newport_SingleAxisMotionController (by decide +kernel)
+theorem full_Newport_SingleAxisMotionController : gateProxyOkB gen_Newport_SingleAxisMotionController = true ∧ assigned_Newport_SingleAxisMotionController.all (fun n => !isAdvertised gen_Newport_SingleAxisMotionController n) = true := by decide +kernel
 
 theorem wf_Newport_SMC100CC : WellFormed gen_Newport_SMC100CC := wf_of_syn gen_Newport_SMC100CC (by decide +kernel)
+theorem full_Newport_SMC100CC : gateProxyOkB gen_Newport_SMC100CC = true ∧ assigned_Newport_SMC100CC.all (fun n => !isAdvertised gen_Newport_SMC100CC n) = true := by decide +kernel
 
 theorem wf_Newport_SMC100PP : WellFormed gen_Newport_SMC100PP := wf_of_syn gen_Newport_SMC100PP (by decide +kernel)
+theorem full_Newport_SMC100PP : gateProxyOkB gen_Newport_SMC100PP = true ∧ assigned_Newport_SMC100PP.all (fun n => !isAdvertised gen_Newport_SMC100PP n) = true := by decide +kernel
 
 theorem wf_NewFocus_TLB670X : WellFormed gen_NewFocus_TLB670X := wf_of_syn gen_NewFocus_TLB670X (by decide +kernel)
+theorem full_NewFocus_TLB670X : gateProxyOkB gen_NewFocus_TLB670X = true ∧ assigned_NewFocus_TLB670X.all (fun n => !isAdvertised gen_NewFocus_TLB670X n) = true := by decide +kernel
 
 theorem wf_KoherasAdjustikLaser : WellFormed gen_KoherasAdjustikLaser := wf_of_syn gen_KoherasAdjustikLaser (by decide +kernel)
+theorem full_KoherasAdjustikLaser : gateProxyOkB gen_KoherasAdjustikLaser = true ∧ assigned_KoherasAdjustikLaser.all (fun n => !isAdvertised gen_KoherasAdjustikLaser n) = true := by decide +kernel
 
 theorem wf_KoherasBoostikLaserAmplifier : WellFormed gen_KoherasBoostikLaserAmplifier := wf_of_syn gen_KoherasBoostikLaserAmplifier (by decide +kernel)
+theorem full_KoherasBoostikLaserAmplifier : gateProxyOkB gen_KoherasBoostikLaserAmplifier = true ∧ assigned_KoherasBoostikLaserAmplifier.all (fun n => !isAdvertised gen_KoherasBoostikLaserAmplifier n) = true := by decide +kernel
 
 theorem wf_OZOptics_DD100MC : WellFormed gen_OZOptics_DD100MC := wf_of_syn gen_OZOptics_DD100MC (by decide +kernel)
+theorem full_OZOptics_DD100MC : gateProxyOkB gen_OZOptics_DD100MC = true ∧ assigned_OZOptics_DD100MC.all (fun n => !isAdvertised gen_OZOptics_DD100MC n) = true := by decide +kernel
 
 theorem wf_OzOptics_EpcDriver : WellFormed gen_OzOptics_EpcDriver := wf_of_syn gen_OzOptics_EpcDriver (by decide +kernel)
+theorem full_OzOptics_EpcDriver : gateProxyOkB gen_OzOptics_EpcDriver = true ∧ assigned_OzOptics_EpcDriver.all (fun n => !isAdvertised gen_OzOptics_EpcDriver n) = true := by decide +kernel
 
 theorem wf_Parallax_UsbPropeller : WellFormed gen_Parallax_UsbPropeller := wf_of_syn gen_Parallax_UsbPropeller (by decide +kernel)
+theorem full_Parallax_UsbPropeller : gateProxyOkB gen_Parallax_UsbPropeller = true ∧ assigned_Parallax_UsbPropeller.all (fun n => !isAdvertised gen_Parallax_UsbPropeller n) = true := by decide +kernel
 
 theorem wf_PI_E873 : WellFormed gen_PI_E873 := wf_of_syn gen_PI_E873 (by decide +kernel)
+theorem full_PI_E873 : gateProxyOkB gen_PI_E873 = true ∧ assigned_PI_E873.all (fun n => !isAdvertised gen_PI_E873 n) = true := by decide +kernel
 
 theorem wf__PicoquantHarp : WellFormed gen__PicoquantHarp := wf_of_syn gen__PicoquantHarp (by decide +kernel)
+theorem full__PicoquantHarp : gateProxyOkB gen__PicoquantHarp = true ∧ assigned__PicoquantHarp.all (fun n => !isAdvertised gen__PicoquantHarp n) = true := by decide +kernel
 
 theorem wf_PicoQuant_HydraHarp400 : WellFormed gen_PicoQuant_HydraHarp400 := wf_of_syn gen_PicoQuant_HydraHarp400 (by decide +kernel)
+theorem full_PicoQuant_HydraHarp400 : gateProxyOkB gen_PicoQuant_HydraHarp400 = true ∧ assigned_PicoQuant_HydraHarp400.all (fun n => !isAdvertised gen_PicoQuant_HydraHarp400 n) = true := by decide +kernel
 
 theorem wf_PicoQuant_MultiHarp150 : WellFormed gen_PicoQuant_MultiHarp150 := wf_of_syn gen_PicoQuant_MultiHarp150 (by decide +kernel)
+theorem full_PicoQuant_MultiHarp150 : gateProxyOkB gen_PicoQuant_MultiHarp150 = true ∧ assigned_PicoQuant_MultiHarp150.all (fun n => !isAdvertised gen_PicoQuant_MultiHarp150 n) = true := by decide +kernel
 
 theorem wf_PicoQuant_PicoHarp300 : WellFormed gen_PicoQuant_PicoHarp300 := wf_of_syn gen_PicoQuant_PicoHarp300 (by decide +kernel)
+theorem full_PicoQuant_PicoHarp300 : gateProxyOkB gen_PicoQuant_PicoHarp300 = true ∧ assigned_PicoQuant_PicoHarp300.all (fun n => !isAdvertised gen_PicoQuant_PicoHarp300 n) = true := by decide +kernel
 
 theorem wf_PicoTech_PicoScope : WellFormed gen_PicoTech_PicoScope := wf_of_syn gen_PicoTech_PicoScope (by decide +kernel)
+theorem full_PicoTech_PicoScope : gateProxyOkB gen_PicoTech_PicoScope = true ∧ assigned_PicoTech_PicoScope.all (fun n => !isAdvertised gen_PicoTech_PicoScope n) = true := by decide +kernel
 
 theorem wf_PicoTech_PicoScope3403 : WellFormed gen_PicoTech_PicoScope3403 := wf_of_syn gen_PicoTech_PicoScope3403 (by decide +kernel)
+theorem full_PicoTech_PicoScope3403 : gateProxyOkB gen_PicoTech_PicoScope3403 = true ∧ assigned_PicoTech_PicoScope3403.all (fun n => !isAdvertised gen_PicoTech_PicoScope3403 n) = true := by decide +kernel
 
 theorem wf_PicoTech_PicoScope4824 : WellFormed gen_PicoTech_PicoScope4824 := wf_of_syn gen_PicoTech_PicoScope4824 (by decide +kernel)
+theorem full_PicoTech_PicoScope4824 : gateProxyOkB gen_PicoTech_PicoScope4824 = true ∧ assigned_PicoTech_PicoScope4824.all (fun n => !isAdvertised gen_PicoTech_PicoScope4824 n) = true := by decide +kernel
 
 theorem wf_Pololu_Maestro : WellFormed gen_Pololu_Maestro := wf_of_syn gen_Pololu_Maestro (by decide +kernel)
+theorem full_Pololu_Maestro : gateProxyOkB gen_Pololu_Maestro = true ∧ assigned_Pololu_Maestro.all (fun n => !isAdvertised gen_Pololu_Maestro n) = true := by decide +kernel
 
 theorem wf_PtGrey_BlackFly_Aravis : WellFormed gen_PtGrey_BlackFly_Aravis := wf_of_syn gen_PtGrey_BlackFly_Aravis (by decide +kernel)
+theorem full_PtGrey_BlackFly_Aravis : gateProxyOkB gen_PtGrey_BlackFly_Aravis = true ∧ assigned_PtGrey_BlackFly_Aravis.all (fun n => !isAdvertised gen_PtGrey_BlackFly_Aravis n) = true := by decide +kernel
 
 theorem wf_QuantumComposers_PulseGenerator9530 : WellFormed gen_QuantumComposers_PulseGenerator9530 := wf_of_syn gen_QuantumComposers_PulseGenerator9530 (by decide +kernel)
+theorem full_QuantumComposers_PulseGenerator9530 : gateProxyOkB gen_QuantumComposers_PulseGenerator9530 = true ∧ assigned_QuantumComposers_PulseGenerator9530.all (fun n => !isAdvertised gen_QuantumComposers_PulseGenerator9530 n) = true := by decide +kernel
 
 theorem wf_AmpSimModule : WellFormed gen_AmpSimModule := wf_of_syn gen_AmpSimModule (by decide +kernel)
+theorem full_AmpSimModule : gateProxyOkB gen_AmpSimModule = true ∧ assigned_AmpSimModule.all (fun n => !isAdvertised gen_AmpSimModule n) = true := by decide +kernel
 
 theorem wf_RaspberryPiGPIO : WellFormed gen_RaspberryPiGPIO := wf_of_syn gen_RaspberryPiGPIO (by decide +kernel)
+theorem full_RaspberryPiGPIO : gateProxyOkB gen_RaspberryPiGPIO = true ∧ assigned_RaspberryPiGPIO.all (fun n => !isAdvertised gen_RaspberryPiGPIO n) = true := by decide +kernel
 
 theorem wf_Rigol_Dg4102 : WellFormed gen_Rigol_Dg4102 := wf_of_syn gen_Rigol_Dg4102 (by decide +kernel)
+theorem full_Rigol_Dg4102 : gateProxyOkB gen_Rigol_Dg4102 = true ∧ assigned_Rigol_Dg4102.all (fun n => !isAdvertised gen_Rigol_Dg4102 n) = true := by decide +kernel
 
 theorem wf_RohdeSchwarz_Base : WellFormed gen_RohdeSchwarz_Base := wf_of_syn gen_RohdeSchwarz_Base (by decide +kernel)
+theorem full_RohdeSchwarz_Base : gateProxyOkB gen_RohdeSchwarz_Base = true ∧ assigned_RohdeSchwarz_Base.all (fun n => !isAdvertised gen_RohdeSchwarz_Base n) = true := by decide +kernel
 
 theorem wf_RohdeSchwarz_SGS100A : WellFormed gen_RohdeSchwarz_SGS100A := wf_of_syn gen_RohdeSchwarz_SGS100A (by decide +kernel)
+theorem full_RohdeSchwarz_SGS100A : gateProxyOkB gen_RohdeSchwarz_SGS100A = true ∧ assigned_RohdeSchwarz_SGS100A.all (fun n => !isAdvertised gen_RohdeSchwarz_SGS100A n) = true := by decide +kernel
 
 theorem wf_RohdeSchwarz_SMBV100A : WellFormed gen_RohdeSchwarz_SMBV100A := wf_of_syn gen_RohdeSchwarz_SMBV100A (by decide +kernel)
+theorem full_RohdeSchwarz_SMBV100A : gateProxyOkB gen_RohdeSchwarz_SMBV100A = true ∧ assigned_RohdeSchwarz_SMBV100A.all (fun n => !isAdvertised gen_RohdeSchwarz_SMBV100A n) = true := by decide +kernel
 
 theorem wf_Santec_Tsl570 : WellFormed gen_Santec_Tsl570 := wf_of_syn gen_Santec_Tsl570 (by decide +kernel)
+theorem full_Santec_Tsl570 : gateProxyOkB gen_Santec_Tsl570 = true ∧ assigned_Santec_Tsl570.all (fun n => !isAdvertised gen_Santec_Tsl570 n) = true := by decide +kernel
 
 theorem wf_SDS1202XE : WellFormed gen_SDS1202XE := wf_of_syn gen_SDS1202XE (by decide +kernel)
+theorem full_SDS1202XE : gateProxyOkB gen_SDS1202XE = true ∧ assigned_SDS1202XE.all (fun n => !isAdvertised gen_SDS1202XE n) = true := by decide +kernel
 
 theorem wf_SSA3000X : WellFormed gen_SSA3000X := wf_of_syn gen_SSA3000X (by decide +kernel)
+theorem full_SSA3000X : gateProxyOkB gen_SSA3000X = true ∧ assigned_SSA3000X.all (fun n => !isAdvertised gen_SSA3000X n) = true := by decide +kernel
 
 theorem wf_SRS_DC205 : WellFormed gen_SRS_DC205 := wf_of_syn gen_SRS_DC205 (by decide +kernel)
+theorem full_SRS_DC205 : gateProxyOkB gen_SRS_DC205 = true ∧ assigned_SRS_DC205.all (fun n => !isAdvertised gen_SRS_DC205 n) = true := by decide +kernel
 
 theorem wf_Sim900 : WellFormed gen_Sim900 := wf_of_syn gen_Sim900 (by decide +kernel)
+theorem full_Sim900 : gateProxyOkB gen_Sim900 = true ∧ assigned_Sim900.all (fun n => !isAdvertised gen_Sim900 n) = true := by decide +kernel
 
 theorem wf_SIM922 : WellFormed gen_SIM922 := wf_of_syn gen_SIM922 (by decide +kernel)
+theorem full_SIM922 : gateProxyOkB gen_SIM922 = true ∧ assigned_SIM922.all (fun n => !isAdvertised gen_SIM922 n) = true := by decide +kernel
 
 theorem wf_Tektronix_AFG31000 : WellFormed gen_Tektronix_AFG31000 := wf_of_syn gen_Tektronix_AFG31000 (by decide +kernel)
+theorem full_Tektronix_AFG31000 : gateProxyOkB gen_Tektronix_AFG31000 = true ∧ assigned_Tektronix_AFG31000.all (fun n => !isAdvertised gen_Tektronix_AFG31000 n) = true := by decide +kernel
 
 theorem wf_Tektronix_Awg5014 : WellFormed gen_Tektronix_Awg5014 := wf_of_syn gen_Tektronix_Awg5014 (by decide +kernel)
+theorem full_Tektronix_Awg5014 : gateProxyOkB gen_Tektronix_Awg5014 = true ∧ assigned_Tektronix_Awg5014.all (fun n => !isAdvertised gen_Tektronix_Awg5014 n) = true := by decide +kernel
 
 theorem wf_Tektronix_FCA3000 : WellFormed gen_Tektronix_FCA3000 := wf_of_syn gen_Tektronix_FCA3000 (by decide +kernel)
+theorem full_Tektronix_FCA3000 : gateProxyOkB gen_Tektronix_FCA3000 = true ∧ assigned_Tektronix_FCA3000.all (fun n => !isAdvertised gen_Tektronix_FCA3000 n) = true := by decide +kernel
 
 theorem wf_Tenma72_10480 : WellFormed gen_Tenma72_10480 := wf_of_syn gen_Tenma72_10480 (by decide +kernel)
+theorem full_Tenma72_10480 : gateProxyOkB gen_Tenma72_10480 = true ∧ assigned_Tenma72_10480.all (fun n => !isAdvertised gen_Tenma72_10480 n) = true := by decide +kernel
 
 theorem wf_Tenma72_13350 : WellFormed gen_Tenma72_13350 := wf_of_syn gen_Tenma72_13350 (by decide +kernel)
+theorem full_Tenma72_13350 : gateProxyOkB gen_Tenma72_13350 = true ∧ assigned_Tenma72_13350.all (fun n => !isAdvertised gen_Tenma72_13350 n) = true := by decide +kernel
 
 theorem wf_Tenma72_13360 : WellFormed gen_Tenma72_13360 := wf_of_syn gen_Tenma72_13360 (by decide +kernel)
+theorem full_Tenma72_13360 : gateProxyOkB gen_Tenma72_13360 = true ∧ assigned_Tenma72_13360.all (fun n => !isAdvertised gen_Tenma72_13360 n) = true := by decide +kernel
 
 theorem wf_Tenma72_2535 : WellFormed gen_Tenma72_2535 := wf_of_syn gen_Tenma72_2535 (by decide +kernel)
+theorem full_Tenma72_2535 : gateProxyOkB gen_Tenma72_2535 = true ∧ assigned_Tenma72_2535.all (fun n => !isAdvertised gen_Tenma72_2535 n) = true := by decide +kernel
 
 theorem wf_Tenma72_2540 : WellFormed gen_Tenma72_2540 := wf_of_syn gen_Tenma72_2540 (by decide +kernel)
+theorem full_Tenma72_2540 : gateProxyOkB gen_Tenma72_2540 = true ∧ assigned_Tenma72_2540.all (fun n => !isAdvertised gen_Tenma72_2540 n) = true := by decide +kernel
 
 theorem wf_Tenma72_2545 : WellFormed gen_Tenma72_2545 := wf_of_syn gen_Tenma72_2545 (by decide +kernel)
+theorem full_Tenma72_2545 : gateProxyOkB gen_Tenma72_2545 = true ∧ assigned_Tenma72_2545.all (fun n => !isAdvertised gen_Tenma72_2545 n) = true := by decide +kernel
 
 theorem wf_Tenma72_2550 : WellFormed gen_Tenma72_2550 := wf_of_syn gen_Tenma72_2550 (by decide +kernel)
+theorem full_Tenma72_2550 : gateProxyOkB gen_Tenma72_2550 = true ∧ assigned_Tenma72_2550.all (fun n => !isAdvertised gen_Tenma72_2550 n) = true := by decide +kernel
 
 theorem wf_Tenma72_2925 : WellFormed gen_Tenma72_2925 := wf_of_syn gen_Tenma72_2925 (by decide +kernel)
+theorem full_Tenma72_2925 : gateProxyOkB gen_Tenma72_2925 = true ∧ assigned_Tenma72_2925.all (fun n => !isAdvertised gen_Tenma72_2925 n) = true := by decide +kernel
 
 theorem wf_Tenma72_2930 : WellFormed gen_Tenma72_2930 := wf_of_syn gen_Tenma72_2930 (by decide +kernel)
+theorem full_Tenma72_2930 : gateProxyOkB gen_Tenma72_2930 = true ∧ assigned_Tenma72_2930.all (fun n => !isAdvertised gen_Tenma72_2930 n) = true := by decide +kernel
 
 theorem wf_Tenma72_2935 : WellFormed gen_Tenma72_2935 := wf_of_syn gen_Tenma72_2935 (by decide +kernel)
+theorem full_Tenma72_2935 : gateProxyOkB gen_Tenma72_2935 = true ∧ assigned_Tenma72_2935.all (fun n => !isAdvertised gen_Tenma72_2935 n) = true := by decide +kernel
 
 theorem wf_Tenma72_2940 : WellFormed gen_Tenma72_2940 := wf_of_syn gen_Tenma72_2940 (by decide +kernel)
+theorem full_Tenma72_2940 : gateProxyOkB gen_Tenma72_2940 = true ∧ assigned_Tenma72_2940.all (fun n => !isAdvertised gen_Tenma72_2940 n) = true := by decide +kernel
 
 theorem wf_Tenma72_Base : WellFormed gen_Tenma72_Base := wf_of_syn gen_Tenma72_Base (by decide +kernel)
+theorem full_Tenma72_Base : gateProxyOkB gen_Tenma72_Base = true ∧ assigned_Tenma72_Base.all (fun n => !isAdvertised gen_Tenma72_Base n) = true := by decide +kernel
 
 theorem wf_Teraxion_TFN : WellFormed gen_Teraxion_TFN := wf_of_syn gen_Teraxion_TFN (by decide +kernel)
+theorem full_Teraxion_TFN : gateProxyOkB gen_Teraxion_TFN = true ∧ assigned_Teraxion_TFN.all (fun n => !isAdvertised gen_Teraxion_TFN n) = true := by decide +kernel
 
 theorem wf_Thorlabs_K10CR1 : WellFormed gen_Thorlabs_K10CR1 := wf_of_syn gen_Thorlabs_K10CR1 (by decide +kernel)
+theorem full_Thorlabs_K10CR1 : gateProxyOkB gen_Thorlabs_K10CR1 = true ∧ assigned_Thorlabs_K10CR1.all (fun n => !isAdvertised gen_Thorlabs_K10CR1 n) = true := by decide +kernel
 
 theorem wf_Thorlabs_MFF10X : WellFormed gen_Thorlabs_MFF10X := wf_of_syn gen_Thorlabs_MFF10X (by decide +kernel)
+theorem full_Thorlabs_MFF10X : gateProxyOkB gen_Thorlabs_MFF10X = true ∧ assigned_Thorlabs_MFF10X.all (fun n => !isAdvertised gen_Thorlabs_MFF10X n) = true := by decide +kernel
 
 theorem wf_Thorlabs_Mpc320 : WellFormed gen_Thorlabs_Mpc320 := wf_of_syn gen_Thorlabs_Mpc320 (by decide +kernel)
+theorem full_Thorlabs_Mpc320 : gateProxyOkB gen_Thorlabs_Mpc320 = true ∧ assigned_Thorlabs_Mpc320.all (fun n => !isAdvertised gen_Thorlabs_Mpc320 n) = true := by decide +kernel
 
 theorem wf_Thorlabs_PM100D : WellFormed gen_Thorlabs_PM100D := wf_of_syn gen_Thorlabs_PM100D (by decide +kernel)
+theorem full_Thorlabs_PM100D : gateProxyOkB gen_Thorlabs_PM100D = true ∧ assigned_Thorlabs_PM100D.all (fun n => !isAdvertised gen_Thorlabs_PM100D n) = true := by decide +kernel
 
 theorem wf_Thorlabs_PM100USB : WellFormed gen_Thorlabs_PM100USB := wf_of_syn gen_Thorlabs_PM100USB (by decide +kernel)
+theorem full_Thorlabs_PM100USB : gateProxyOkB gen_Thorlabs_PM100USB = true ∧ assigned_Thorlabs_PM100USB.all (fun n => !isAdvertised gen_Thorlabs_PM100USB n) = true := by decide +kernel
 
 theorem wf_Thorlabs_PM101U : WellFormed gen_Thorlabs_PM101U := wf_of_syn gen_Thorlabs_PM101U (by decide +kernel)
+theorem full_Thorlabs_PM101U : gateProxyOkB gen_Thorlabs_PM101U = true ∧ assigned_Thorlabs_PM101U.all (fun n => !isAdvertised gen_Thorlabs_PM101U n) = true := by decide +kernel
 
 theorem wf_Thorlabs_PM10x : WellFormed gen_Thorlabs_PM10x := wf_of_syn gen_Thorlabs_PM10x (by decide +kernel)
+theorem full_Thorlabs_PM10x : gateProxyOkB gen_Thorlabs_PM10x = true ∧ assigned_Thorlabs_PM10x.all (fun n => !isAdvertised gen_Thorlabs_PM10x n) = true := by decide +kernel
 
 theorem wf_Thorlabs_PM16_120 : WellFormed gen_Thorlabs_PM16_120 := wf_of_syn gen_Thorlabs_PM16_120 (by decide +kernel)
+theorem full_Thorlabs_PM16_120 : gateProxyOkB gen_Thorlabs_PM16_120 = true ∧ assigned_Thorlabs_PM16_120.all (fun n => !isAdvertised gen_Thorlabs_PM16_120 n) = true := by decide +kernel
 
 theorem wf_Thorlabs_TC200 : WellFormed gen_Thorlabs_TC200 := wf_of_syn gen_Thorlabs_TC200 (by decide +kernel)
+theorem full_Thorlabs_TC200 : gateProxyOkB gen_Thorlabs_TC200 = true ∧ assigned_Thorlabs_TC200.all (fun n => !isAdvertised gen_Thorlabs_TC200 n) = true := by decide +kernel
 
 theorem wf_Thorlabs_TSP01 : WellFormed gen_Thorlabs_TSP01 := wf_of_syn gen_Thorlabs_TSP01 (by decide +kernel)
+theorem full_Thorlabs_TSP01 : gateProxyOkB gen_Thorlabs_TSP01 = true ∧ assigned_Thorlabs_TSP01.all (fun n => !isAdvertised gen_Thorlabs_TSP01 n) = true := by decide +kernel
 
 theorem wf_Thorlabs_TSP01B : WellFormed gen_Thorlabs_TSP01B := wf_of_syn gen_Thorlabs_TSP01B (by decide +kernel)
+theorem full_Thorlabs_TSP01B : gateProxyOkB gen_Thorlabs_TSP01B = true ∧ assigned_Thorlabs_TSP01B.all (fun n => !isAdvertised gen_Thorlabs_TSP01B n) = true := by decide +kernel
 
 theorem wf_TimeBase_DIM3000 : WellFormed gen_TimeBase_DIM3000 := wf_of_syn gen_TimeBase_DIM3000 (by decide +kernel)
+theorem full_TimeBase_DIM3000 : gateProxyOkB gen_TimeBase_DIM3000 = true ∧ assigned_TimeBase_DIM3000.all (fun n => !isAdvertised gen_TimeBase_DIM3000 n) = true := by decide +kernel
 
 theorem wf_Toptica_DLC : WellFormed gen_Toptica_DLC := wf_of_syn gen_Toptica_DLC (by decide +kernel)
+theorem full_Toptica_DLC : gateProxyOkB gen_Toptica_DLC = true ∧ assigned_Toptica_DLC.all (fun n => !isAdvertised gen_Toptica_DLC n) = true := by decide +kernel
 
 theorem wf_TT_TGF3162 : WellFormed gen_TT_TGF3162 := wf_of_syn gen_TT_TGF3162 (by decide +kernel)
+theorem full_TT_TGF3162 : gateProxyOkB gen_TT_TGF3162 = true ∧ assigned_TT_TGF3162.all (fun n => !isAdvertised gen_TT_TGF3162 n) = true := by decide +kernel
 
 theorem wf_TT_TGF_3000_4000_Series : WellFormed gen_TT_TGF_3000_4000_Series := wf_of_syn gen_TT_TGF_3000_4000_Series (by decide +kernel)
+theorem full_TT_TGF_3000_4000_Series : gateProxyOkB gen_TT_TGF_3000_4000_Series = true ∧ assigned_TT_TGF_3000_4000_Series.all (fun n => !isAdvertised gen_TT_TGF_3000_4000_Series n) = true := by decide +kernel
 
 theorem wf_Wavelength_TC_Lab : WellFormed gen_Wavelength_TC_Lab := wf_of_syn gen_Wavelength_TC_Lab (by decide +kernel)
+theorem full_Wavelength_TC_Lab : gateProxyOkB gen_Wavelength_TC_Lab = true ∧ assigned_Wavelength_TC_Lab.all (fun n => !isAdvertised gen_Wavelength_TC_Lab n) = true := by decide +kernel
 
 theorem wf_Wieserlabs_FlexDDS_NG_Dual : WellFormed gen_Wieserlabs_FlexDDS_NG_Dual := wf_of_syn gen_Wieserlabs_FlexDDS_NG_Dual (by decide +kernel)
+theorem full_Wieserlabs_FlexDDS_NG_Dual : gateProxyOkB gen_Wieserlabs_FlexDDS_NG_Dual = true ∧ assigned_Wieserlabs_FlexDDS_NG_Dual.all (fun n => !isAdvertised gen_Wieserlabs_FlexDDS_NG_Dual n) = true := by decide +kernel
 
 theorem wf_WlPhotonics_WltfN : WellFormed gen_WlPhotonics_WltfN := wf_of_syn gen_WlPhotonics_WltfN (by decide +kernel)
+theorem full_WlPhotonics_WltfN : gateProxyOkB gen_WlPhotonics_WltfN = true ∧ assigned_WlPhotonics_WltfN.all (fun n => !isAdvertised gen_WlPhotonics_WltfN n) = true := by decide +kernel
 
 theorem wf_ZurichInstruments_HDAWG : WellFormed gen_ZurichInstruments_HDAWG := wf_of_syn gen_ZurichInstruments_HDAWG (by decide +kernel)
+theorem full_ZurichInstruments_HDAWG : gateProxyOkB gen_ZurichInstruments_HDAWG = true ∧ assigned_ZurichInstruments_HDAWG.all (fun n => !isAdvertised gen_ZurichInstruments_HDAWG n) = true := by decide +kernel
 
 end QmiModel.Gen
